@@ -2,6 +2,7 @@ package main
 
 import (
 	"bytes"
+	"runtime"
 	"context"
 	"fmt"
 	"os"
@@ -68,14 +69,59 @@ type solveResult struct {
 	all     map[string]string
 }
 
+// solverSlots bounds the number of solver processes of this check that run at the same time (one per core): the VC
+// generator is happy to start hundreds, which only makes every one of them miss its wall-clock budget.
+var solverSlots = make(chan struct{}, maxInt(2, runtime.NumCPU()))
+
+func maxInt(a, b int) int {
+	if a > b {
+		return a
+	}
+	return b
+}
+
+// runOne runs one solver on one query. A solver that hit its wall-clock limit although it was given little CPU (the
+// machine is overloaded) has not really been given its budget: it is run again, up to three times.
 func runOne(ctx context.Context, b backend, file string, timeoutS int) (string, string) {
+	st, out := "", ""
+	for attempt := 0; attempt < 4; attempt++ {
+		var starved bool
+		st, out, starved = runOnce(ctx, b, file, timeoutS<<attempt) // a starved run is repeated with twice the wall-clock budget
+		if st != "timeout" || !starved || ctx.Err() != nil {
+			break
+		}
+	}
+	return st, out
+}
+
+func runOnce(ctx context.Context, b backend, file string, timeoutS int) (status string, output string, starved bool) {
+	select {
+	case solverSlots <- struct{}{}:
+		defer func() { <-solverSlots }()
+	case <-ctx.Done():
+		return "timeout", "cancelled before start", false
+	}
 	args := b.cmd(file, timeoutS)
-	c := exec.CommandContext(ctx, args[0], args[1:]...)
+	// the solver enforces its own limit; this is only a guard against one that does not (counted from process start,
+	// not from the moment the query was queued)
+	pctx, pcancel := context.WithTimeout(ctx, time.Duration(timeoutS+5)*time.Second)
+	defer pcancel()
+	c := exec.CommandContext(pctx, args[0], args[1:]...)
 	var out bytes.Buffer
 	c.Stdout = &out
 	c.Stderr = &out
+	start := time.Now()
 	_ = c.Run()
-	s := out.String()
+	wall := time.Since(start)
+	if c.ProcessState != nil && wall > time.Second {
+		cpu := c.ProcessState.UserTime() + c.ProcessState.SystemTime()
+		starved = cpu < wall*6/10
+	}
+	st, o := classify(ctx, out.String())
+	return st, o, starved
+}
+
+func classify(ctx context.Context, s string) (string, string) {
 	first := strings.TrimSpace(strings.SplitN(s, "\n", 2)[0])
 	switch first {
 	case "unsat", "sat", "unknown":
@@ -113,7 +159,7 @@ func solveWith(dir, name, text string, timeoutS int, only []string) solveResult 
 	if err := os.WriteFile(file, []byte(text), 0644); err != nil {
 		return solveResult{status: "error", output: err.Error()}
 	}
-	ctx, cancel := context.WithTimeout(context.Background(), time.Duration(timeoutS+2)*time.Second)
+	ctx, cancel := context.WithCancel(context.Background())
 	defer cancel()
 	type r struct{ b, st, out string }
 	ch := make(chan r, len(backends))
